@@ -5,6 +5,11 @@ set -u
 cd /repo || exit 2
 res=$(/venv/bin/python -m pytest -ra -q -p no:cacheprovider --timeout=900 --continue-on-collection-errors 2>&1 | tail -1)
 echo "$res"
+ex=$(/verif/tools/example_diff.sh HEAD WORKTREE 2>&1 | head -1)
+echo "$ex"
+if [ "$ex" != "example output diff lines: 5" ] && [ "${ALLOW_EXDIFF:-0}" != 1 ]; then
+  echo "NOT COMMITTED: the bundled example's output changes (look at tools/example_diff.sh HEAD WORKTREE; ALLOW_EXDIFF=1 to accept)"; exit 1
+fi
 if echo "$res" | grep -q "^1 failed, 255 passed"; then
   git commit -qam "$1" && git log --format=%h -1
 else
